@@ -679,6 +679,8 @@ impl<Service: crate::service::Service> WaitSet<Service> {
         let reactor_guard = self.attach_to_reactor(attachment)?;
         let deadline_queue_guard = self.attach_to_deadline_queue(deadline)?;
 
+        self.attach()?;
+
         let reactor_idx = unsafe { reactor_guard.file_descriptor().native_handle() };
         let deadline_idx = deadline_queue_guard.index();
 
@@ -688,7 +690,6 @@ impl<Service: crate::service::Service> WaitSet<Service> {
         self.deadline_to_attachment
             .borrow_mut()
             .insert(deadline_idx, reactor_idx);
-        self.attach()?;
 
         Ok(WaitSetGuard {
             waitset: self,
